@@ -23,8 +23,8 @@ ENV = dict(os.environ, GOFLAGS="-mod=mod", GOPROXY="off", GOSUMDB="off", GOTOOLC
 
 # checks that observe a package (cheap ones first); C16 (race detector, non-deterministic traces) is left out of the sweep
 RELEVANT = [
-    (r"^v3/metric/", ["C20", "C01", "C07", "C09", "C10", "C11", "C13", "C14", "C12", "C15", "C06", "C17", "C02", "C03"]),
-    (r"^v2/metric/", ["C20", "C04", "C08", "C09", "C10", "C11", "C13", "C14", "C12", "C15", "C06", "C05"]),
+    (r"^v3/metric/", ["C20", "C01", "C17", "C07", "C11", "C09", "C10", "C02", "C14", "C15", "C03", "C13", "C12", "C06"]),
+    (r"^v2/metric/", ["C20", "C04", "C08", "C11", "C09", "C10", "C14", "C05", "C15", "C13", "C12", "C06"]),
     (r"^v3/report/names/", ["C18", "C17"]),
     (r"^v3/report/", ["C17", "C18", "C19"]),
     (r"^v3/version/", ["C20", "C07", "C17", "C10"]),
